@@ -224,6 +224,11 @@ func init() {
 					seenN[term] = true
 					out.Add("names", Case{Coq: term, Tag: tag, Desc: map[string]interface{}{"object": what, "cn": c.Subject.CommonName, "dns": c.DNSNames}})
 				}
+				// the thirteen subject-attribute length lints (Kernels/SubjLen.v)
+				if term, tag, ok := subjLenCase(c); ok && !seenN["sl"+term] {
+					seenN["sl"+term] = true
+					out.Add("subjlen", Case{Coq: term, Tag: tag, Desc: map[string]interface{}{"object": what}})
+				}
 				// the four lints that relate the common name(s) to the SAN entries (Kernels/CnSan.v)
 				if term, tag, ok := cnSanCase(c); ok && !seenN["cnsan"+term] {
 					seenN["cnsan"+term] = true
@@ -234,6 +239,11 @@ func init() {
 				switch zc.Class {
 				case "name", "related-names", "many-san", "tld", "extension", "ku-eku", "own-key", "subject", "subject-repeat", "name-constraints":
 					addN(zc.Cert, zc.File)
+				}
+			}
+			for i, der := range subjLenCerts() {
+				if c, err := safeParseCert(der); err == nil {
+					addN(c, fmt.Sprintf("subject length probe %d", i))
 				}
 			}
 			labelPool := []string{"example", "com", "", "*", "a*", "*a", "w*w", "?", strings.Repeat("a", 63), strings.Repeat("b", 64), "a_b", "-a", "a-", "A", "xn--caf-dma", "a b", "a\x00b", "1", "co", "uk", " ", "é"}
